@@ -456,6 +456,17 @@ def run(chk):
     fixed_witnesses(chk, corr)
     if chk.cli_ok:
         phase_multi(chk)
+        # folder-output mode against the same crates generated alone (lib/multi.py): how a crate spells its references must not depend
+        # on the other crates of the run (seeded C09_f: a memo of resolved renames keyed by the bare Rust name, shared by all crates)
+        import multi
+        g0 = c09_gen.Gen(rng)
+        nw = 12 if chk.tier == 'quick' else 150
+        wss = [[progs.source(g0.program(rename_mode=rng.choice([None, 'all', None]))) for _ in range(rng.choice([2, 3, 3]))] for _ in range(nw)]
+        # the directed shape: the alphabetically first crate renames a type and refers to it, a later crate has its own type of that name
+        wss.append(['#[typeshare]\n#[serde(rename = "AccountSession")]\npub struct Session { pub x: u8 }\n#[typeshare]\npub struct UsesA { pub s: Session, pub v: Vec<Session> }\n',
+                    '#[typeshare]\n#[serde(rename = "PaymentSession")]\npub struct Session { pub y: u8 }\n#[typeshare]\npub struct UsesB { pub s: Session }\n#[typeshare]\n#[serde(tag = "t", content = "c")]\npub enum Ev { Settled { s: Session }, Other(Session) }\n',
+                    '#[typeshare]\npub struct Session { pub z: u8 }\n#[typeshare]\npub type Alias = Option<Session>;\n'])
+        multi.independent_crates(chk, wss, multi.facet_types, 'the spelling of references (C09)', swift_prefix='OP')
     # 1. the witnesses of the recorded classes, against the real code
     wl = sorted(WITNESSES.items())
     res = run_cases([(l, c, s) for _, (l, c, s) in wl])
